@@ -107,6 +107,18 @@ class Peer:
                     self.schedule(conn, self.plan['stream'], ('stream', k + 1))
                 data = f'update m:value [{1000 + k}, {{"t": 4.0}}]\n'.encode()
                 self.sim.count('peer.streamed-update')
+            elif isinstance(data, tuple) and data[0] == 'split':
+                # one line written in two pieces (nothing else goes out on this connection in between)
+                try:
+                    conn.sock.sendall(data[1])
+                    sim.wait_until(lambda: conn.closed, data[3], what='peer pause inside a line')
+                    if conn.closed:
+                        continue
+                    conn.sock.sendall(data[2])
+                    self.sent.append({'n': n, 't': sim.vnow(), 'seq': sim.next_seq(), 'bytes': data[1] + data[2], 'conn': conn.idx})
+                except OSError:
+                    self._lose(conn, 'send-failed')
+                continue
             elif isinstance(data, tuple):       # fault marker
                 self._do_fault(conn, data)
                 continue
@@ -187,6 +199,13 @@ class Peer:
             self.schedule(conn, delay, f'error_{action}{rspec} ["HardwareError", "failed uid{uid}", {{}}]\n'.encode(), n)
         elif kind == 'ok':
             self.schedule(conn, delay, self._ok_reply(action, spec, uid), n)
+        elif kind == 'split':
+            # the reply comes in two pieces with a pause in between (a slow link, a node stalling in the middle of a
+            # write): longer than the receive time-out of the client or not
+            full = self._ok_reply(action, spec, uid)
+            cut = max(1, min(len(full) - 1, int(len(full) * step.get('frac', 0.5))))
+            self.schedule(conn, delay, ('split', full[:cut], full[cut:], step.get('gap', 1.5)), n)
+            self.sim.count('peer.reply-in-two-pieces')
         elif kind == 'midline':
             full = self._ok_reply(action, spec, uid)
             self.schedule(conn, delay, full[:max(1, len(full) // 2)], n)
